@@ -377,6 +377,24 @@ int check_main(int argc, char **argv) {
   BatchOut bo;
   run_batch(def, tier, seed, n, J, images, outdir, t0 + budget, false, bo);
 
+  // 2b. determinism spot check on this very build: the first plans of the batch run twice more in hash-only mode, with two
+  // different worker counts (different process histories); any difference in (choice stream, trace) hashes is an
+  // infrastructure failure of the simulator, not a verdict about the property
+  uint64_t det_plans = 0, det_differ = 0;
+  {
+    uint64_t m = std::min<uint64_t>(n, tier == "quick" ? 96 : 480);
+    BatchOut da, db;
+    run_batch(def, tier, seed, m, J, images, outdir, now_s() + 240, true, da);
+    run_batch(def, tier, seed, m, 3, images, outdir, now_s() + 240, true, db);
+    for (auto &p : da.hashes) { auto it = db.hashes.find(p.first); if (it == db.hashes.end()) continue; det_plans++; if (it->second != p.second) { det_differ++; if (det_differ < 4) printf("simq: plan %llu is not deterministic: %s/%s vs %s/%s\n", (unsigned long long)p.first, p.second.first.c_str(), p.second.second.c_str(), it->second.first.c_str(), it->second.second.c_str()); } }
+    if (det_differ) { printf("simq: determinism spot check failed: %llu of %llu plans differ between two executions\n", (unsigned long long)det_differ, (unsigned long long)det_plans); exit_code = 2; }
+  }
+
+  // 2c. the simulated kernel against the host kernel (world K), in a fresh process: reported in the evidence, not a verdict
+  std::string kself = "not run";
+  { char exe[4096]; ssize_t l = readlink("/proc/self/exe", exe, sizeof exe - 1); if (l > 0) { exe[l] = 0; std::string cmd = std::string(exe) + " selftest --images '" + images + "' --n 200 --seed " + std::to_string(seed % 1000 + 1) + " 2>/dev/null | tail -1"; if (FILE *f = popen(cmd.c_str(), "r")) { char b[512]; std::string o; while (fgets(b, sizeof b, f)) o += b; pclose(f); while (!o.empty() && (o.back() == '\n')) o.pop_back(); if (!o.empty()) kself = o; } } }
+  if (kself.find(" 0 disagree") == std::string::npos) printf("simq: note: %s\n", kself.c_str());
+
   // 3. violations: fresh-process replay gate
   std::sort(bo.violations.begin(), bo.violations.end(), [](const Json &a, const Json &b) { return a.geti("i") < b.geti("i"); });
   std::set<std::string> reported_classes;
@@ -433,6 +451,8 @@ int check_main(int argc, char **argv) {
   Json real = Json::arr(); for (auto &x : def->real) real.push(x); Json stubs = Json::arr(); for (auto &x : def->stubs) stubs.push(x);
   cov.set("components_real", real).set("components_stub", stubs).set("technique", def->technique).set("workers", J);
   Json kf = Json::arr(); for (auto &x : known_printed) kf.push(x); cov.set("known_findings_seen", kf);
+  cov.set("simulated_kernel_vs_host_kernel", kself);
+  cov.set("determinism_recheck", Json::obj().set("plans_run_twice_more", (unsigned long long)det_plans).set("differ", (unsigned long long)det_differ).set("how", "hash-only re-execution with 16 and with 3 workers; (choice stream, trace) hashes compared"));
   ev.set("coverage", cov);
   Json as = Json::arr(); for (auto &x : def->assumptions) as.push(x); ev.set("assumptions", as);
   ev.set("wall_s", wall).set("violations", nviol);
